@@ -248,11 +248,13 @@ theorem HInv.invoke {st : St} (h : HInv st) (ctx : Ctx) (fn : Fn) (s : Nat) (inf
   | none =>
     simp only
     have hw := h.ghOnly (ghOnly_parseParams ctx.env st s fn)
+    have hrb := parse_rollback_eq ctx.env st s fn
     cases hpp : parseParams ctx.env st s fn with
     | mk r w =>
-      rw [hpp] at hw
+      rw [hpp] at hw hrb
+      simp only at hrb
       cases r with
-      | error e => exact hw
+      | error e => simp only; rw [hrb]; exact h
       | ok params =>
         simp only
         have hs := shallowCheck_state s params w
@@ -333,23 +335,25 @@ theorem HInv.decorate {st : St} (h : HInv st) (ctx : Ctx) (fn : Fn) (i s : Nat) 
   | none =>
     simp only
     have hw := h.ghOnly (ghOnly_parseParams ctx.env st s fn)
+    have hrb := parse_rollback_eq ctx.env st s fn
     cases hpp : parseParams ctx.env st s fn with
     | mk r w =>
-      rw [hpp] at hw
+      rw [hpp] at hw hrb
+      simp only at hrb
       cases r with
-      | error e => exact hw
+      | error e => simp only; rw [hrb]; exact h
       | ok params =>
         simp only
         cases newResultList ctx.env {} fn with
-        | error e => exact hw
+        | error e => simp only; rw [hrb]; exact h
         | ok results =>
           simp only
           cases resultKeys ctx.env (slotResults results) with
-          | error e => exact hw
+          | error e => simp only; rw [hrb]; exact h
           | ok keys =>
             simp only
             by_cases hcond : (hasDup keys || keys.any fun k => (aget (w.scope s).decorators k).isSome) = true
-            · rw [if_pos hcond]; exact hw
+            · rw [if_pos hcond]; simp only; rw [hrb]; exact h
             · rw [if_neg hcond]
               simp only
               -- the new decorator node is `ready`; nothing else changes
